@@ -455,12 +455,16 @@ pub fn cmd_run(args: &[String]) -> i32 {
 // c07-control: control-connection pager
 // ---------------------------------------------------------------------------------------------
 
+static CONTROL_WATCHDOGS: std::sync::atomic::AtomicU32 = std::sync::atomic::AtomicU32::new(0);
+
 async fn run_control_scenario(sc: &Value) -> Result<Value, String> {
     let id = sc["id"].as_i64().ok_or("id")?;
     let n = sc["nodes"].as_u64().ok_or("nodes")? as usize;
     let k = sc["keyspaces"].as_u64().ok_or("keyspaces")? as usize;
     let t = sc["tables"].as_u64().ok_or("tables")? as usize;
     let p = sc["sys_page"].as_u64().ok_or("sys_page")? as usize;
+    // empty: 1 = between two pages of rows the server sends a page WITHOUT rows that still announces more pages
+    crate::mock::SYS_EMPTY_PAGES.store(sc["empty"].as_u64() == Some(1), std::sync::atomic::Ordering::SeqCst);
     if !(1..=200).contains(&n) {
         return Err(format!("nodes {n}"));
     }
@@ -498,14 +502,21 @@ async fn run_control_scenario(sc: &Value) -> Result<Value, String> {
     }
     let mock = mock.ok_or(format!("mock start: {last}"))?;
 
-    let built = tokio::time::timeout(
-        Duration::from_secs(60),
-        tokio::spawn({
-            let cp = mock.contact_point(0);
-            async move { SessionBuilder::new().known_node(cp).pool_size(PoolSize::PerHost(std::num::NonZeroUsize::new(1).unwrap())).disallow_shard_aware_port(true).build().await }
-        }),
-    )
-    .await;
+    // after three sessions that never came up the remaining scenarios are not tried (each would cost the full watchdog)
+    if CONTROL_WATCHDOGS.load(std::sync::atomic::Ordering::SeqCst) >= 3 {
+        mock.shutdown().await;
+        return Ok(json!({"id": id, "nodes": n, "keyspaces": k, "tables": t, "sys_page": p, "start_err": "skipped: the session build of three earlier scenarios never finished",
+                         "seen_nodes": [], "expected_nodes": [], "seen_keyspaces": {}, "system_pages": 0}));
+    }
+    let build_task = tokio::spawn({
+        let cp = mock.contact_point(0);
+        async move { SessionBuilder::new().known_node(cp).pool_size(PoolSize::PerHost(std::num::NonZeroUsize::new(1).unwrap())).disallow_shard_aware_port(true).build().await }
+    });
+    let build_abort = build_task.abort_handle();
+    let built = tokio::time::timeout(Duration::from_secs(10), build_task).await;
+    if built.is_err() {
+        build_abort.abort(); // a build that spins must not go on spinning behind the next scenarios
+    }
     let mut start_err = String::new();
     let mut seen_nodes: Vec<String> = vec![];
     let mut seen_ks: BTreeMap<String, Vec<String>> = BTreeMap::new();
@@ -520,7 +531,8 @@ async fn run_control_scenario(sc: &Value) -> Result<Value, String> {
             None
         }
         Err(_) => {
-            start_err = "watchdog: session build did not finish in 60 s".into();
+            CONTROL_WATCHDOGS.fetch_add(1, std::sync::atomic::Ordering::SeqCst);
+            start_err = "watchdog: session build did not finish in 10 s (the metadata fetch over the control connection does not terminate)".into();
             None
         }
     };
